@@ -64,7 +64,7 @@ class C15(Prop):
     id = "C15"
     harness = "c15"
     props_file = "Properties/C15.v"
-    coq_modules = ["Prov/Check.v", "Prov/Fields.v"]
+    coq_modules = ["Prov/Check.v", "Prov/InitCheck.v", "Prov/Fields.v"]
     level = "proof"
     rule = ("chains of 2..5 imports into one fresh real provisioning.Service (config grammar: 1..3 connectors, 0..4 "
             "processors per connector and per pipeline, conditions, workers, settings, DLQ, reorderings, type and plugin "
@@ -94,12 +94,15 @@ class C15(Prop):
 
     def shards(self, tier, seed):
         if tier == "quick":
-            return [["--replay", CORPUS]] + [["--seed", str(seed), "--n", "30"] for _ in range(16)]
+            return ([["--replay", CORPUS]] + [["--seed", str(seed), "--n", "30"] for _ in range(16)]
+                    + [["--seed", str(seed), "--mode", "dir", "--n", "20"] for _ in range(8)])
         return [["--replay", CORPUS]] + ([["--seed", str(seed), "--n", "1000"] for _ in range(NCPU)]
-                + [["--seed", str(seed), "--mode", "pairs"] for _ in range(NCPU)])
+                + [["--seed", str(seed), "--mode", "pairs"] for _ in range(NCPU)]
+                + [["--seed", str(seed), "--mode", "dir", "--n", "600"] for _ in range(NCPU)])
 
     def search_shards(self, tier, seed, round_no):
-        return [["--seed", str(seed + 7919 * (round_no + 1) + k), "--n", "120"] for k in range(NCPU)]
+        return ([["--seed", str(seed + 7919 * (round_no + 1) + k), "--n", "120"] for k in range(NCPU - 4)]
+                + [["--seed", str(seed + 7919 * (round_no + 1) + k), "--mode", "dir", "--n", "60"] for k in range(4)])
 
     # ---- translator + per-run obligation -------------------------------------------------
     def pre(self, ctx):
